@@ -108,6 +108,14 @@ def handleL3 (req ans : String) : Verdict :=
       { model := if ok then ans else m, specOk := specOk,
         spec := s!"accepted, and the emitted line is a jump to `tgt` of the condition class Intel gives for `{nm}`", nontrivial := true }
     | _ => bad
+  | ["asmre", _, e2] =>
+    -- C19: the answer for a source does not depend on what the parser object and the (cleared) context processed before
+    match pctDecode e2, ans.splitOn " || " with
+    | some s2, [aReused, aFresh] =>
+      let (m2, ok2) := asmVerdict s2 aFresh
+      { model := if ok2 then ans else s!"{aReused} || {m2}", specOk := aReused == aFresh,
+        spec := "the same answer on used (cleared) objects as on fresh ones", nontrivial := true }
+    | _, _ => bad
   | ["asmx", e1, e2] =>
     -- C13: a program with macro uses against the same program with every use written out by hand
     -- (the reference expansion is made by the generator: simultaneous whole-word substitution,
